@@ -29,10 +29,10 @@ G = "fcppt::container::grid::"
 PURE_PREFIX = ("fcppt::math::vector::at", "fcppt::math::dim::at", "fcppt::strong_typedef::get", "fcppt::container::grid::object::size")
 
 SPECS = {
-    G + "in_range_dim": {"kind": "ALLOF", "scalars": {"p": "at(_pos)", "d": "at(_dim)"}, "pred": lambda r: r.p < r.d, "text": "pos_i < dim_i"},
-    G + "min_less_sup": {"kind": "ALLOF", "scalars": {"m": "at(get(_min))", "s": "at(get(_sup))"}, "pred": lambda r: r.m < r.s, "text": "min_i < sup_i"},
-    G + "clamped_sup": {"kind": "INIT", "scalars": {"p": "at(_pos)", "s": "at(_size)"}, "sel": lambda r: min(r.p, r.s), "text": "min(pos_i, size_i)"},
-    G + "clamped_min": {"kind": "INIT", "scalars": {"p": "at(_pos)", "z": "0"}, "sel": lambda r: max(r.p, r.z), "text": "max(pos_i, 0)"},
+    G + "in_range_dim": {"kind": "ALLOF", "scalars": {"p": "at(r_a1)", "d": "at(r_a0)"}, "pred": lambda r: r.p < r.d, "text": "pos_i < dim_i"},
+    G + "min_less_sup": {"kind": "ALLOF", "scalars": {"m": "at(get(r_a0))", "s": "at(get(r_a1))"}, "pred": lambda r: r.m < r.s, "text": "min_i < sup_i"},
+    G + "clamped_sup": {"kind": "INIT", "scalars": {"p": "at(r_a0)", "s": "at(r_a1)"}, "sel": lambda r: min(r.p, r.s), "text": "min(pos_i, size_i)"},
+    G + "clamped_min": {"kind": "INIT", "scalars": {"p": "at(r_a0)", "z": "0"}, "sel": lambda r: max(r.p, r.z), "text": "max(pos_i, 0)"},
 }
 
 
@@ -110,14 +110,14 @@ def main(rep, tier, only):
         st = sf = False
         for p in ps:
             ir = [e for e in p.events if e[0].split("<")[0] == G + "in_range"]
-            if len(ir) != 1 or [sx.show(a) for a in ir[0][1]] != ["_grid", "_pos"]:
-                why = "in_range(_grid, _pos) is not evaluated exactly once"
+            if len(ir) != 1 or [sx.show(a) for a in ir[0][1]] != ["r_a0", "r_a1"]:
+                why = "in_range(grid, pos) of the function's own arguments is not evaluated exactly once"
                 break
             dec = [b for a, b in p.decisions]
             v = sx.show(p.outcome[1])
             if dec and dec[0]:
                 st = True
-                if "some" not in v or "get_unsafe(_grid, _pos)" not in v:
+                if "some" not in v or "get_unsafe(r_a0, r_a1)" not in v:
                     why = "in-range position does not yield a reference to get_unsafe(_pos) of the same grid (%s)" % v
             else:
                 sf = True
@@ -135,7 +135,7 @@ def main(rep, tier, only):
         seen.add(k)
         ps = sx.Interp(db, sx.Config(pure_prefixes=PURE_PREFIX)).paths(fn)
         ev = [e for p in ps for e in p.events]
-        ok = len(ps) == 1 and len(ev) == 1 and ev[0][0].split("<")[0] == G + "in_range_dim" and [sx.show(a) for a in ev[0][1]] == ["size(_grid)", "_pos"] \
+        ok = len(ps) == 1 and len(ev) == 1 and ev[0][0].split("<")[0] == G + "in_range_dim" and [sx.show(a) for a in ev[0][1]] == ["size(r_a0)", "r_a1"] \
             and sx.show(ps[0].outcome[1]).startswith("#1")
         key = "in_range<%s>" % ",".join(k)[:60]
         (rep.ok if ok else rep.fail)("AT", key, F.primary_site(fn), F.describe(fn)[:160], **({"how": "delegates"} if ok else {"why": "in_range is not in_range_dim(_grid.size(), _pos)"}))
@@ -162,12 +162,12 @@ def main(rep, tier, only):
             ps = it.paths(fn)
             cl, rest = grid_ctor_closure(ps[0].outcome[1]) if len(ps) == 1 else (None, [])
             why = None
-            if cl is None or [sx.show(a) for a in rest] != ["size(_source)"]:
+            if cl is None or [sx.show(a) for a in rest] != ["size(r_a0)"]:
                 why = "the result is not a grid of the source's size built from a per-position function"
             else:
                 lp = sx.Interp(db, pcfg).paths_lambda(cl, cl.node["ops"][0], [("sym", "P")])
                 calls = [e for p in lp for e in p.events if e[0] == "call"]
-                if len(lp) != 1 or len(calls) != 1 or [sx.show(a) for a in calls[0][1]] != ["_function", "get_unsafe(_source, P)"] or not sx.show(lp[0].outcome[1]).startswith("#1"):
+                if len(lp) != 1 or len(calls) != 1 or [sx.show(a) for a in calls[0][1]] != ["r_a1", "get_unsafe(r_a0, P)"] or not sx.show(lp[0].outcome[1]).startswith("#1"):
                     why = "the cell at P is not _function(source cell at P), exactly once: %s" % [sx.show_event(e) for e in calls]
         except sx.Unsupported as e:
             why = "outside the interpreted fragment: %s" % e
@@ -224,7 +224,7 @@ def main(rep, tier, only):
         try:
             ps = sx.Interp(db, pcfg).paths(fn)
             cl, rest = grid_ctor_closure(ps[0].outcome[1]) if len(ps) == 1 else (None, [])
-            if cl is None or [sx.show(a) for a in rest] != ["_new_size"]:
+            if cl is None or [sx.show(a) for a in rest] != ["r_a1"]:
                 why = "the result is not a grid of the new size built from a per-position function"
             else:
                 cfg2 = sx.Config(inline_prefixes=("fcppt::cond", "fcppt::optional::", "fcppt::const_"), pure=("fcppt::reference::get",))
@@ -232,7 +232,7 @@ def main(rep, tier, only):
                 t = f_ = False
                 for p in lp:
                     ao = [e for e in p.events if e[0].split("<")[0] == G + "at_optional"]
-                    if len(ao) != 1 or [sx.show(a) for a in ao[0][1]] != ["_grid", "P"]:
+                    if len(ao) != 1 or [sx.show(a) for a in ao[0][1]] != ["r_a0", "P"]:
                         why = "at_optional(_grid, P) is not consulted exactly once"
                         break
                     hv = [b for a, b in p.decisions]
@@ -244,7 +244,7 @@ def main(rep, tier, only):
                             why = "an existing cell is not taken over (%s)" % v
                     else:
                         f_ = True
-                        if len(calls) != 1 or [sx.show(a) for a in calls[0][1]] != ["_init", "P"]:
+                        if len(calls) != 1 or [sx.show(a) for a in calls[0][1]] != ["r_a2", "P"]:
                             why = "a new cell is not _init(P)"
                 if not why and not (t and f_):
                     why = "the cell does not depend on whether the old grid has it"
@@ -270,9 +270,9 @@ def main(rep, tier, only):
                 w = [e for e in p.events if e[0] == "write"][0]
                 c = [e for e in p.events if e[0] == "call"]
                 tgt, val = sx.show(w[1][0]), sx.show(w[1][1])
-                if "make_pos_ref_range(_grid)" not in tgt or not tgt.startswith("value("):
+                if "make_pos_ref_range(r_a0)" not in tgt or not tgt.startswith("value("):
                     why = "the written object is not the visited element's value (%s)" % tgt
-                if not c or [sx.show(a)[:4] for a in c[0][1]][:2] != ["_fun", "pos("] or not val.startswith("#"):
+                if not c or [sx.show(a)[:4] for a in c[0][1]][:2] != ["r_a1", "pos("] or not val.startswith("#"):
                     why = "the written value is not _function(element.pos())"
         except sx.Unsupported as e:
             why = "outside the interpreted fragment: %s" % e
@@ -295,13 +295,13 @@ def main(rep, tier, only):
                     why = "the result depends on %d conditions, expected exactly min_less_sup(_min, _sup)" % len(p_.decisions)
                     break
                 atom, val = sx.show(p_.decisions[0][0]), p_.decisions[0][1]
-                if atom != "min_less_sup(_min, _sup)":
+                if atom != "min_less_sup(r_a0, r_a1)":
                     why = "the subtraction is guarded by `%s`, not by min_less_sup(_min, _sup): a range that is inverted in one coordinate reaches the unsigned subtraction" % atom
                     break
                 rows[val] = sx.show(p_.outcome[1])
             if not why:
                 t, f_ = rows.get(True, ""), rows.get(False, "")
-                if not ("operator-(get(_sup), get(_min))" in t and t.startswith("to_dim(")):
+                if not ("operator-(get(r_a1), get(r_a0))" in t and t.startswith("to_dim(")):
                     why = "the non-empty case is %s, expected to_dim(sup - min)" % t
                 elif not f_.startswith("null("):
                     why = "the empty case is %s, expected the null dimension" % f_
